@@ -133,6 +133,7 @@ fn log_ret(r: &str, v: i64, same: bool) {
         api = st.th[t].in_call.as_ref().and_then(|c| c["api"].as_str()).unwrap_or("").to_string();
         st.th[t].in_call = None;
         st.th[t].hold = 0;
+        st.th[t].risky = 0;
         solo = st.th[t].solo_mark.take();
         if !st.th[t].retrying {
             // a finished call of a finite program is progress
